@@ -1,7 +1,7 @@
 ;; C09 (K-inner B): dump of the analysed AST before and after the registered optimisation passes (sexp_simplify),
 ;; in the prefix token syntax that ocaml/C09_driver.ml reads and prints:
 ;;   I <c>  an immediate (not a pointer)      L <c>  a SEXP_LIT node (quoted datum, fold result)      B <c>  a heap datum that is not a lit
-;;   <c> = i<dec> | t | f | v | o<written form, spaces as ~>
+;;   <c> = i<dec> | r<num>/<den> | t | f | v | o<written form, spaces as ~>
 ;;   R <name> <lambda-id>    S <name> <lambda-id> <e>    C <t> <a> <b>    Q <n> <e>*    A <n> <f> <arg>*    O <opcode-name>
 ;;   M <id> <n> <param>* <rest 0|1> <m> <set-var>* <body>          lambda ids: order of first visit, 0 = global
 ;; props/C09.py appends (c09-case <n> '<form>) lines to a copy of this file.
@@ -24,7 +24,8 @@
     (list->string (map (lambda (c) (if (eqv? c #\space) #\~ c)) (string->list (get-output-string p))))))
 
 (define (dump-const tag v)
-  (cond ((and (exact? v) (integer? v)) (emit tag (string-append "i" (number->string v))))
+  (cond ((and (number? v) (exact? v) (integer? v)) (emit tag (string-append "i" (number->string v))))
+        ((and (number? v) (exact? v) (rational? v)) (emit tag (string-append "r" (number->string (numerator v)) "/" (number->string (denominator v)))))
         ((eq? v #t) (emit tag "t"))
         ((eq? v #f) (emit tag "f"))
         ((eq? v (if #f #f)) (emit tag "v"))
